@@ -6,6 +6,7 @@ package c17
 import (
 	"fmt"
 	"math/rand/v2"
+	"os"
 	"runtime"
 	"sort"
 	"strings"
@@ -32,17 +33,24 @@ type Case struct {
 	Salt    int    `json:"salt"`
 }
 
-var kinds = []string{"prodcons", "mutex-let", "mutex-global", "sync-instance", "defvar-defun", "printing", "exit-lock", "generic", "mutex-hash", "exit-lock-global", "range-close", "select", "hash-register", "resync"}
+var kinds = []string{"prodcons", "mutex-let", "mutex-global", "sync-instance", "defvar-defun", "printing", "exit-lock", "generic", "mutex-hash", "exit-lock-global", "range-close", "select", "hash-register", "resync", "select-drain"}
 
 func nCases(tier string) int {
 	if tier == "thorough" {
-		return 2408
+		return 2400
 	}
 	return 210
 }
 
+// selectDrainRounds: the stranding window is a few nanoseconds wide, so the
+// kind gets more rounds than the other kinds get operations.
+func selectDrainRounds(c Case) int { return 2*c.M + 20 }
+
 func gen(r *rand.Rand, i int, tier string) Case {
 	c := Case{Kind: kinds[i%len(kinds)]}
+	if k := os.Getenv("C17_KIND"); k != "" { // development aid: one workload kind only
+		c.Kind = k
+	}
 	c.N = 2 + r.IntN(7)
 	c.M = 5 + r.IntN(60)
 	if tier == "thorough" && r.IntN(4) == 0 {
@@ -300,6 +308,32 @@ func program(c Case) (src string, warm string) {
 		}
 		b.WriteString(")) (channel-push done t)))\n (channel-pop done)\n")
 		fmt.Fprintf(&b, " (dotimes (i %d) (setq res (cons (channel-pop out) res)))\n (reverse res))", np*c.M)
+	case "select-drain":
+		// the usual data-plus-quit shape under contention: in every round fewer
+		// items than consumers wait in a buffered channel when all consumers
+		// arrive at select together (released by closing a gate); each consumer
+		// loops on (select (data ..) (quit ..)); once the buffer is drained every
+		// consumer is sent one quit token and must report. A consumer that stops
+		// watching its other clauses never reports (the case hangs); globals and
+		// per-routine lets only, so that no let scope is shared for writing.
+		rounds := selectDrainRounds(c)
+		fmt.Fprintf(&b, "(defvar *%s-data* (make-channel %d))\n(defvar *%s-quit* (make-channel %d))\n(defvar *%s-out* (make-channel %d))\n(defvar *%s-res* (make-channel %d))\n",
+			u, c.N+1, u, c.N+1, u, c.N+1, u, rounds*c.N+1)
+		// the rounds are written out one after the other: every (run ...) form is
+		// evaluated once by one routine (re-evaluating one form object from several
+		// routines is the listed Function.Eval first-evaluation finding)
+		b.WriteString("(progn\n")
+		for r := 1; r <= rounds; r++ {
+			b.WriteString(" (let ((gate (make-channel 0)))\n")
+			for i := 0; i < c.N-1; i++ {
+				fmt.Fprintf(&b, "  (channel-push *%s-data* %d)\n", u, r*1000+i)
+			}
+			for k := 0; k < c.N; k++ {
+				fmt.Fprintf(&b, "  (run (let ((got nil) (going t)) (channel-pop gate) (do () ((not going)) (select (*%s-data* x (setq got (cons x got))) (*%s-quit* q (setq going nil)))) (channel-push *%s-out* got)))\n", u, u, u)
+			}
+			fmt.Fprintf(&b, "  (channel-close gate)\n  (do () ((= 0 (length *%s-data*))) (c17-yield))\n  (dotimes (i %d) (channel-push *%s-quit* t))\n  (dotimes (i %d) (channel-push *%s-res* (channel-pop *%s-out*))))\n", u, c.N, u, c.N, u, u)
+		}
+		fmt.Fprintf(&b, " (let ((res nil)) (dotimes (i %d) (setq res (append (channel-pop *%s-res*) res))) res))", rounds*c.N, u)
 	case "mutex-let":
 		// the documented shape: a let variable updated under with-mutex-lock,
 		// read-yield-write body so a broken lock loses updates
@@ -601,6 +635,35 @@ func exec(x *fw.Ctx, c Case) {
 			}
 		}
 		x.CoverN("increments", c.N*c.M)
+	case "select-drain":
+		v, ok := ints(res)
+		if !ok {
+			x.Fail(sig("shape"), "%s: %s", cfg, shown)
+			return
+		}
+		seen := map[int64]int{}
+		for _, it := range v {
+			seen[it]++
+		}
+		for r := 1; r <= selectDrainRounds(c); r++ {
+			for i := 0; i < c.N-1; i++ {
+				it := int64(r*1000 + i)
+				switch seen[it] {
+				case 1:
+				case 0:
+					x.Fail(sig("item-lost"), "%s: item %d was pushed and never received", cfg, it)
+					return
+				default:
+					x.Fail(sig("item-duplicated"), "%s: item %d received %d times", cfg, it, seen[it])
+					return
+				}
+			}
+		}
+		if len(v) != selectDrainRounds(c)*(c.N-1) {
+			x.Fail(sig("item-invented"), "%s: %d items received, %d pushed", cfg, len(v), selectDrainRounds(c)*(c.N-1))
+		}
+		x.CoverN("items-received", len(v))
+		x.CoverN("contended-drains", selectDrainRounds(c))
 	case "resync":
 		v, ok := ints(res)
 		if !ok || len(v) != 1+c.N {
@@ -699,7 +762,7 @@ func exec(x *fw.Ctx, c Case) {
 func init() {
 	fw.Register(fw.Spec[Case]{
 		ID: "C17",
-		Rule: "a case = workload kind (14 kinds, one of them a hash table used as per-key registers whose recorded call/return history is checked for linearizability with porcupine: producers/consumers over channels, mutex-guarded let/global/hash counters with a read-yield-write body, synchronized instance, synchronized instance (class or flavor) whose routines re-apply set-synchronized before every access, " +
+		Rule: "a case = workload kind (15 kinds, one of them a hash table used as per-key registers whose recorded call/return history is checked for linearizability with porcupine: producers/consumers over channels, mutex-guarded let/global/hash counters with a read-yield-write body, synchronized instance, synchronized instance (class or flavor) whose routines re-apply set-synchronized before every access, rounds of N consumers released together onto N-1 buffered items each looping on select over data and quit (a stranded consumer hangs the case), " +
 			"concurrent defvar/defun, concurrent printing, exits out of locked regions, generic calls during defmethod) x N<=8 routines x M<=200 ops x channel capacity x GOMAXPROCS {1,2,4,16} x " +
 			"schedule perturbation {off, random yield, random 10-200us sleep at VerifPoints and monitor calls} x cold/warm, run in a race-detector build; " +
 			"every case is non-trivial (>= 2 routines); distinct = distinct case JSON",
